@@ -557,9 +557,17 @@ def r6(ctx):
         gs = [[(src(t), p) for t, p in U.guards(a)] for a in adv]
         # (one test on the bypass flow of the region -- the array reduced
         # with np.sum / np.any, see G7 -- selects the model)
-        ok = gs[0][0][0] == gs[1][0][0] and \
-            'byp_flow_rate' in gs[0][0][0] and \
-            gs[0][0][1] != gs[1][0][1] and \
+        def _flowing(txt):
+            try:
+                e = ast.parse(txt, mode='eval').body
+            except SyntaxError:
+                return False
+            return isinstance(e, ast.Compare) and len(e.ops) == 1 and \
+                isinstance(e.ops[0], ast.Gt) and \
+                const(e.comparators[0], None) in (0, 0.0) and \
+                'self.byp_flow_rate' in src(e.left)
+        ok = gs[0][0][0] == gs[1][0][0] and _flowing(gs[0][0][0]) and \
+            gs[0][0][1] is True and gs[1][0][1] is False and \
             call_name(adv[0].value) == 'self._calc_coolant_byp_temp' and \
             call_name(adv[1].value) == \
             'self._calc_coolant_byp_temp_stagnant'
